@@ -369,6 +369,21 @@ class Ctx:
                    f"{label}|stale-answer-after-arguments-were-refilled-in-place", case,
                    lambda: {"same_objects": jsonable(truncate(jsonable(r4))),
                             "fresh_copies": jsonable(truncate(jsonable(rf)))})
+        # a result kept by the caller survives a later call on *other data of the same
+        # shape* (a work area kept between calls would hand out the same memory twice)
+        try:
+            keep4 = _copy.deepcopy(r4)
+            other = [np.array(a, copy=True) if isinstance(a, np.ndarray)
+                     else _copy.deepcopy(a) for a in args]
+            for i in farr:
+                mutate(other[i], i + 1)
+            r5 = fn(*other)
+        except Exception:
+            return
+        self.check("reuse.kept-result-vs-other-data", same_result(r4, keep4),
+                   f"{label}|earlier-result-overwritten-by-call-on-other-data", case,
+                   lambda: {"kept": jsonable(truncate(jsonable(keep4))),
+                            "now": jsonable(truncate(jsonable(r4)))})
 
     def shapes(self, label, fn, x, base, case, rtol=1e-12, atol=0.0):
         """An element-wise function gives every element the same answer whatever the
